@@ -28,7 +28,7 @@ EX = {"double": 1e-11, "single": 2e-6}
 def cases(tier, seed):
     from vlib.gen import HALO_CLASSES
 
-    n = 160 if tier == "quick" else 9600
+    n = 160 if tier == "quick" else 28800
     out = [{"seed": seed, "idx": i, "kind": "conservation"} for i in range(n)]
     out += [{"seed": seed, "idx": i, "kind": "halo", "halo_class": [c for c in HALO_CLASSES if c != "zero"][i % 5]} for i in range(n)]
     out += [{"seed": seed, "idx": i, "kind": "refine"} for i in range(n // 8)]
